@@ -8,9 +8,12 @@ def parseLoop : String → Option Loop
   | "asyncSsh" => some .asyncSsh
   | _ => none
 
-def parsePrompt : String → Option PromptPat
-  | "c" => some Gen.Auth.chanPrompt
-  | "g" => some Gen.Auth.genericPrompt
+/-- c: BaseChannelArgs() directly (field defaults); d: channel built by a driver (fallback patterns) with the
+    BaseChannelArgs prompt pattern; g: GenericDriver with all its defaults -/
+def parseCfg : String → Option (Loop → Nat → Cfg)
+  | "c" => some fun l ivl => defaultCfg l Gen.Auth.chanPrompt ivl
+  | "d" => some fun l ivl => driverCfg l Gen.Auth.chanPrompt ivl
+  | "g" => some fun l ivl => driverCfg l Gen.Auth.genericPrompt ivl
   | _ => none
 
 /-- `E` = read raised ScrapliConnectionError; `<hex>@<t>` = read returned the bytes at elapsed time t -/
@@ -39,13 +42,13 @@ def entryStr (e : Entry) : String :=
 def bit (b : Bool) : String := if b then "1" else "0"
 
 /-- `run <loop> <c|g> <ivl> <tape>` -> `<status> <nread> <log>` ;
-    `pred <hex>` -> six bits: username password passphrase chanPrompt genericPrompt fatal -/
+    `pred <hex>` -> nine bits: username password passphrase chanPrompt genericPrompt fatal, then the three driver-built patterns -/
 def handleLine (line : String) : String :=
   match line.trimAscii.toString.splitOn " " with
   | ["run", l, p, ivl, tape] =>
-    match parseLoop l, parsePrompt p, ivl.toNat?, parseTape tape with
-    | some l, some p, some ivl, some tape =>
-      let s := run (defaultCfg l p ivl) tape
+    match parseLoop l, parseCfg p, ivl.toNat?, parseTape tape with
+    | some l, some mk, some ivl, some tape =>
+      let s := run (mk l ivl) tape
       let lg := if s.log.isEmpty then "." else ";".intercalate (s.log.map entryStr)
       s!"{statusStr s.status} {s.nread} {lg}"
     | _, _, _, _ => "bad-op"
@@ -54,6 +57,7 @@ def handleLine (line : String) : String :=
     | some b =>
       bit (defaultP .username b) ++ bit (defaultP .password b) ++ bit (defaultP .passphrase b)
         ++ bit (Gen.Auth.chanPrompt.search b) ++ bit (Gen.Auth.genericPrompt.search b) ++ bit (fatalMsg b)
+        ++ bit (driverP .username b) ++ bit (driverP .password b) ++ bit (driverP .passphrase b)
     | none => "bad-op"
   | _ => "bad-op"
 
